@@ -83,8 +83,9 @@ class Detrender(_SeriesToSeriesTransformer):
         """
         z = check_series(Z, enforce_univariate=True)
         if self.forecaster is None:
-            self.forecaster = PolynomialTrendForecaster(degree=1)
-        forecaster = clone(self.forecaster)
+            forecaster = PolynomialTrendForecaster(degree=1)
+        else:
+            forecaster = clone(self.forecaster)
         self.forecaster_ = forecaster.fit(z, X)
         self._is_fitted = True
         return self
@@ -148,6 +149,7 @@ class Detrender(_SeriesToSeriesTransformer):
         -------
         self : an instance of self
         """
+        self.check_is_fitted()
         z = check_series(Z, enforce_univariate=True, allow_empty=True)
         self.forecaster_.update(z, X, update_params=update_params)
         return self
